@@ -121,7 +121,7 @@ class Scenario:
             if len(modes) > 2:
                 self.probes.append(aprobe.Probe(s, self.log, mode=modes[2], pid=3))
         else:
-            self.probes = [aprobe.Probe(getattr(self, "tail", node), self.log, mode=m, pid=i + 1)
+            self.probes = [aprobe.make_probe(getattr(self, "tail", node), self.log, mode=m, pid=i + 1)
                            for i, m in enumerate(cfg.get("cons", ["future"]))]
         if k in ("j_zip_latest", "j_combine_latest") or cfg.get("tail") == "zip_latest":
             self.other.emit(0)              # the other input has a value before any consumer exists
